@@ -202,6 +202,11 @@ func (c *Check) JudgeAll(cases []*Case) []*Result {
 				continue
 			}
 			seen[v.Symptom] = true
+			if strings.HasPrefix(v.Symptom, "harness") {
+				// the machinery (renderer, driver, trace) is at fault: never a verdict
+				c.Internalf("%s [%s]: %s", v.CaseID, v.Symptom, v.Detail)
+				continue
+			}
 			if k := c.isKnown(v); k != nil {
 				c.KnownHit[k.ID]++
 				continue
@@ -339,6 +344,10 @@ func (c *Check) Finish() int {
 	cov["known_findings_reproduced"] = kf
 	seed := 0
 	fmt.Sscanf(os.Getenv("VERIF_SEED"), "%d", &seed)
+	if c.Assumptions == nil {
+		c.Assumptions = []string{}
+	}
+	c.Assumptions = append(c.Assumptions, "checked program space is bounded to the alphabet and bounds stated in coverage.rule; wire is driven as the real binary built from /repo's working tree")
 	ev := map[string]interface{}{
 		"property_id": c.Prop, "tier": c.Tier, "seed": seed, "level": c.Level,
 		"coverage": cov, "assumptions": c.Assumptions, "wall_s": wall, "violations": len(c.Violations),
